@@ -1,8 +1,9 @@
 #!/bin/bash
-# tools/seed_matrix.sh [pattern] : run every seeded change against the checks its meta.json names; writes seeded/RESULTS.md
+# tools/seed_matrix.sh [pattern] [outfile] : run every seeded change against the checks its meta.json names;
+# writes seeded/RESULTS.md (or outfile; VERIF_SEED from the environment is passed on to the checks)
 cd /verif
 pat=${1:-'*'}
-out=seeded/RESULTS.md
+out=${2:-seeded/RESULTS.md}
 tmp=$(mktemp)
 echo "| seed | check | exit | first line |" > $tmp; echo "|---|---|---|---|" >> $tmp
 for d in seeded/$pat/; do
